@@ -2,25 +2,25 @@
 # confirm_seed.sh <ID> [<name>] : independently confirm a seeded change produced in /tmp/seed/<ID>:
 #   (1) unedited suite passes with it, (2) demo fails with it, (3) demo passes without it.
 # On success archive patch.diff, demo and meta.json under /verif/seeded/<name>/ .
-id="$1"; name="${2:-$1}"; w=/tmp/seed/$id
+id="$1"; name="${2:-$1}"; root="${SEEDROOT:-/tmp/seed}"; w=$root/$id
 export PYTHONDONTWRITEBYTECODE=1
 unset PYDBML_VERIF
 cd "$w" || exit 2
-git diff -- pydbml > /tmp/seed/$id.patch
-[ -s /tmp/seed/$id.patch ] || { echo "$id: empty patch"; exit 1; }
+git diff -- pydbml > $root/$id.patch
+[ -s $root/$id.patch ] || { echo "$id: empty patch"; exit 1; }
 git status --short | grep -v '^??' | grep -v ' pydbml/' && { echo "$id: touches files outside pydbml"; }
 imp=$(/venv/bin/python -c "import pydbml;print(pydbml.__file__)")
 case "$imp" in $w/*) ;; *) echo "$id: wrong import $imp"; exit 2;; esac
 t_with=$(/venv/bin/python -m pytest -q -p no:cacheprovider 2>&1 | tail -1)
-/venv/bin/python demo_$id.py > /tmp/seed/$id.with.out 2>&1; rc_with=$?
+/venv/bin/python demo_$id.py > $root/$id.with.out 2>&1; rc_with=$?
 git stash -q
-/venv/bin/python demo_$id.py > /tmp/seed/$id.without.out 2>&1; rc_without=$?
+/venv/bin/python demo_$id.py > $root/$id.without.out 2>&1; rc_without=$?
 git stash pop -q
 echo "$id: suite[$t_with] demo_with=$rc_with demo_without=$rc_without"
 case "$t_with" in *"470 passed"*) ;; *) echo "$id: suite does not pass"; exit 1;; esac
 [ $rc_with = 1 ] && [ $rc_without = 0 ] || { echo "$id: demo does not discriminate"; exit 1; }
 d=/verif/seeded/$name; mkdir -p $d
-cp /tmp/seed/$id.patch $d/patch.diff; cp demo_$id.py $d/demo.py; [ -f NOTES.md ] && cp NOTES.md $d/NOTES.md
+cp $root/$id.patch $d/patch.diff; cp demo_$id.py $d/demo.py; [ -f NOTES.md ] && cp NOTES.md $d/NOTES.md
 python3 - "$id" "$d" "$t_with" <<'PY'
 import json,sys
 id,d,t=sys.argv[1:4]
